@@ -197,6 +197,18 @@ func repoRev() string {
 }
 
 // runProc executes one worker process for sp and returns its results.
+// procWatchdog: wall-clock budget of one worker process. A process of many runs is
+// a process of short runs (the ilv worlds take milliseconds each), so the budget is
+// capped: a thread of the system blocked for good outside the instrumented code
+// must not hold a check for hours.
+func procWatchdog(nRuns int) time.Duration {
+	to := time.Duration(nRuns)*20*time.Second + 60*time.Second
+	if to > 10*time.Minute {
+		to = 10 * time.Minute
+	}
+	return to
+}
+
 func runProc(worker string, sp spec, timeout time.Duration) ([]sim.Result, string, error) {
 	dir, err := os.MkdirTemp(filepath.Join(verifDir, ".work", "runs"), "p")
 	if err != nil {
@@ -210,6 +222,9 @@ func runProc(worker string, sp spec, timeout time.Duration) ([]sim.Result, strin
 		return nil, "", err
 	}
 	cmd := exec.Command(worker, "-test.run", "^TestWorker$", "-test.timeout", "0", "-kg.in", in, "-kg.out", out)
+	if tf := os.Getenv("KG_WORKER_TRACE"); tf != "" { // debugging aid: Go execution trace of the worker
+		cmd.Args = append(cmd.Args, "-test.trace", tf)
+	}
 	cmd.Dir = dir
 	cmd.Env = append(os.Environ(), "GOMAXPROCS=1", "GODEBUG=randseednop=0,asyncpreemptoff=1", "GOTRACEBACK=all")
 	if len(sp.Runs) == 1 {
@@ -345,7 +360,7 @@ func runBatch(bi *buildInfo, chk *meta.Check, b meta.Batch, n int, batchSeed uin
 		go func() {
 			defer wg.Done()
 			for jb := range ch {
-				to := time.Duration(len(jb.sp.Runs))*20*time.Second + 60*time.Second
+				to := procWatchdog(len(jb.sp.Runs))
 				if watchdogS > 0 {
 					to = time.Duration(watchdogS) * time.Second
 				}
@@ -654,7 +669,7 @@ func runTapes(bi *buildInfo, prop string, b meta.Batch, tapes [][]uint32, keepTr
 		go func(sp spec) {
 			defer wg.Done()
 			defer func() { <-sem }()
-			res, stderr, err := runProc(bi.Worker, sp, time.Duration(len(sp.Runs))*20*time.Second+60*time.Second)
+			res, stderr, err := runProc(bi.Worker, sp, procWatchdog(len(sp.Runs)))
 			mu.Lock()
 			got := map[int]bool{}
 			for _, r := range res {
